@@ -86,7 +86,7 @@ Lemma v_pw_reply s r T ks x s' :
   In (EPwReply r T ks x) (v_dlv (view_of s)) /\
   view_of s' = vcl (view_of s) T (pw_reply_rec (vgetc (view_of s) T) ks x).
 Proof.
-  unfold step_pw_reply. intros H. chk1 H E1. chk1 H E2. chk1 H E3. ok_inv H.
+  unfold step_pw_reply. intros H. chk1 H E1. chk1 H E2. chk1 H E3. chk1 H E4. ok_inv H.
   split; [exact (delivered_pw _ _ _ _ _ E2) | reflexivity].
 Qed.
 
@@ -233,7 +233,7 @@ Lemma v_told s T t s' :
 Proof.
   unfold step_told. intros H. chk1 H E1. chk1 H E2. cbv zeta in H.
   change (vgetc (view_of s) T) with (getc s T).
-  destruct t; cbn [told_guard told_rec]; chk1 H E3; ok_inv H; split; reflexivity.
+  destruct t; cbn [told_guard told_rec]; chk1 H E3; try chk1 H E4; ok_inv H; split; reflexivity.
 Qed.
 
 Lemma v_rs_send s e r T C s' :
